@@ -16,6 +16,9 @@ SOLVERS = [
     ('z3-5.1', ['z3-new', '-smt2', '-T:{t}']),
     ('z3-4.8', ['/usr/bin/z3', '-smt2', '-T:{t}']),
     ('cvc5-1.0', ['/usr/bin/cvc5', '--lang=smt2', '--tlimit={tms}', '--full-saturate-quant']),
+    # E-matching only (no model-based instantiation): proves what pattern instantiation proves and otherwise saturates at once
+    # with reason-unknown "(incomplete quantifiers)" - the quick "verification failed" answer for obligations that do not hold
+    ('z3-5.1-ematch', ['z3-new', '-smt2', '-T:{t}', 'smt.mbqi=false', 'smt.auto_config=false']),
 ]
 
 
@@ -171,7 +174,7 @@ def _discharge_text(ob, text, workdir, timeout, second_opinion=False, only_first
     with open(path, 'w') as fh:
         fh.write(text)
     answers = {}
-    solvers = SOLVERS[:1] if only_first else SOLVERS
+    solvers = SOLVERS[:1] if only_first else SOLVERS[:3]
     if ob.expect == 'sat':
         # vacuity canaries: satisfiability under quantified axioms is rarely decidable; short budget, one solver
         solvers = SOLVERS[:1]
@@ -180,7 +183,7 @@ def _discharge_text(ob, text, workdir, timeout, second_opinion=False, only_first
         # the portfolio pass: z3 4.8 first - on an unprovable obligation its E-matching saturates within a second with
         # reason-unknown "(incomplete quantifiers)" (the classic "verification failed" answer); the others then get a
         # reduced budget to find a proof the older solver missed
-        solvers = [SOLVERS[1], SOLVERS[0]] + SOLVERS[2:]
+        solvers = [SOLVERS[3], SOLVERS[1], SOLVERS[0], SOLVERS[2]]
     for name, cmd in solvers:
         if name.startswith('cvc5') and '(lambda' in text:
             continue
